@@ -13,7 +13,7 @@ use std::fmt::Write as _;
 use syn::*;
 
 #[derive(Clone, Debug, PartialEq)]
-enum Ty { U8, U32, U64, I32, I64, Bool, W(usize), RMode, Class, F64U, F32U, DecDigits, N, Ord, OptOrd, Hasher, Arr(Box<Ty>, usize), Generic(String), Tuple(Vec<Ty>), Func(Vec<Ty>, Box<Ty>), Opt128, VecU32, Unit, Unknown }
+enum Ty { U8, U32, U64, I32, I64, Bool, W(usize), RMode, Class, F64U, F32U, DecDigits, N, Ord, OptOrd, Hasher, Arr(Box<Ty>, usize), Generic(String), Tuple(Vec<Ty>), Func(Vec<Ty>, Box<Ty>), Opt128, VecU32, Str, OptRMode, ResD128, Unit, Unknown }
 
 impl Ty {
     fn lean(&self) -> String {
@@ -21,7 +21,7 @@ impl Ty {
             Ty::U8 => "UInt8".into(), Ty::U32 => "UInt32".into(), Ty::U64 => "UInt64".into(), Ty::I32 => "Int32".into(),
             Ty::I64 => "Int64".into(), Ty::Bool => "Bool".into(), Ty::W(n) => format!("U{}", n), Ty::RMode => "RoundingMode".into(), Ty::Class => "ClassTypes".into(),
             Ty::F64U => "F64U".into(), Ty::F32U => "F32U".into(), Ty::DecDigits => "DecDigits".into(), Ty::N => "Nat".into(), Ty::Ord => "Ordering".into(), Ty::OptOrd => "(Option Ordering)".into(),
-            Ty::Hasher => "(List UInt8)".into(), Ty::VecU32 => "(List UInt32)".into(), Ty::Arr(t, _) => format!("(Array {})", t.lean()), Ty::Generic(g) => format!("{}'", g),
+            Ty::Hasher => "(List UInt8)".into(), Ty::VecU32 => "(List UInt32)".into(), Ty::Str => "String".into(), Ty::OptRMode => "(Option RoundingMode)".into(), Ty::ResD128 => "(Except UInt32 U128)".into(), Ty::Arr(t, _) => format!("(Array {})", t.lean()), Ty::Generic(g) => format!("{}'", g),
             Ty::Tuple(v) => format!("({})", v.iter().map(|t| t.lean()).collect::<Vec<_>>().join(" × ")),
             Ty::Func(a, r) => format!("({} → Except String {})", a.iter().map(|t| t.lean()).collect::<Vec<_>>().join(" → "), r.lean()),
             Ty::Opt128 => "(Option U128)".into(),
@@ -47,6 +47,8 @@ struct Ctx {
     used_tables: HashSet<String>,
     errors: Vec<String>,
     new_is_lh: bool,
+    /// per translated function: the untranslated (`extern`) functions it needs as leading parameters, in order
+    ext_needs: HashMap<String, Vec<String>>,
 }
 
 /// variables in scope: Rust name -> type, and the Lean name when it had to be renamed (an inner `let` that shadows a
@@ -102,7 +104,13 @@ fn ty_of_type(t: &Type) -> (Ty, bool) {
                 "BID_UINT128" | "d128" | "Self" | "Output" => Ty::W(128), "Ordering" => Ty::Ord, "H" => Ty::Hasher,
                 "Option" => {
                     let inner = match &p.path.segments.last().unwrap().arguments { PathArguments::AngleBracketed(a) => a.args.first().and_then(|g| if let GenericArgument::Type(t) = g { Some(ty_of_type(t).0) } else { None }), _ => None };
-                    if inner == Some(Ty::Ord) { Ty::OptOrd } else if inner == Some(Ty::W(128)) { Ty::Opt128 } else { Ty::Unknown }
+                    if inner == Some(Ty::Ord) { Ty::OptOrd } else if inner == Some(Ty::W(128)) { Ty::Opt128 } else if inner == Some(Ty::RMode) { Ty::OptRMode } else { Ty::Unknown }
+                }
+                "str" => Ty::Str,
+                "Result" => {
+                    // `Result<Self, Self::Err>` of `impl FromStr for d128` (`type Err = u32`)
+                    let a: Vec<String> = match &p.path.segments.last().unwrap().arguments { PathArguments::AngleBracketed(a) => a.args.iter().map(|g| quote::quote!(#g).to_string().replace(' ', "")).collect(), _ => vec![] };
+                    if a == vec!["Self".to_string(), "Self::Err".to_string()] { Ty::ResD128 } else { Ty::Unknown }
                 }
                 "Vec" => {
                     let inner = match &p.path.segments.last().unwrap().arguments { PathArguments::AngleBracketed(a) => a.args.first().and_then(|g| if let GenericArgument::Type(t) = g { Some(ty_of_type(t).0) } else { None }), _ => None };
@@ -157,6 +165,10 @@ fn ex(s: String, ty: Ty, m: bool) -> Ex { Ex { s, ty, m, untyped_lit: false } }
 fn ann(s: &str, ty: &Ty) -> String { format!("({} : {})", s.replace("⟪T⟫", &ty.lean()), ty.lean()) }
 
 impl<'a> FnCtx<'a> {
+    /// the Lean head of a call of `f`: its name followed by the extern parameters it takes
+    fn callee_name(&self, f: &str) -> String {
+        match self.cx.ext_needs.get(f) { Some(v) if !v.is_empty() => format!("{} {}", fn_name(f), v.iter().map(|e| fn_name(e)).collect::<Vec<_>>().join(" ")), _ => fn_name(f) }
+    }
     fn fresh(&mut self) -> String { self.tmp += 1; format!("t__{}", self.tmp) }
 
     fn cast(&self, e: &Ex, to: &Ty) -> R<String> {
@@ -399,6 +411,12 @@ impl<'a> FnCtx<'a> {
                     if a.ty != Ty::Ord { bail!("Some of {:?}", a.ty) }
                     return Ok(ex(format!("(some {})", a.s), Ty::OptOrd, a.m));
                 }
+                if (f == "Ok" || f == "Err") && self.ext && self.ret == Ty::ResD128 {
+                    let a = self.expr(&c.args[0], env)?;
+                    if f == "Ok" { if a.ty != Ty::W(128) { bail!("Ok of {:?}", a.ty) } return Ok(ex(format!("(Except.ok {} : Except UInt32 U128)", paren(&a.s)), Ty::ResD128, a.m)); }
+                    let a_s = self.cast(&a, &Ty::U32)?;
+                    return Ok(ex(format!("(Except.error {} : Except UInt32 U128)", paren(&a_s)), Ty::ResD128, a.m));
+                }
                 if f == "RoundingMode::from" {
                     let a = self.expr(&c.args[0], env)?; let a_s = self.cast(&a, &Ty::U32)?;
                     return Ok(ex(format!("(← RoundingMode.fromU32 {})", paren(&a_s)), Ty::RMode, true));
@@ -427,7 +445,7 @@ impl<'a> FnCtx<'a> {
                     let x = self.expr(a, env)?;
                     args.push(if x.untyped_lit { ann(&x.s, &pt) } else { paren(&x.s) });
                 }
-                Ok(ex(format!("(← {} {})", fn_name(&f), args.join(" ")), ret, true))
+                Ok(ex(format!("(← {} {})", self.callee_name(&f), args.join(" ")), ret, true))
             }
             Expr::MethodCall(mc) => {
                 let m = mc.method.to_string();
@@ -442,6 +460,18 @@ impl<'a> FnCtx<'a> {
                                 "is_none" => ex(format!("{}.isNone", paren(&x.s)), Ty::Bool, x.m),
                                 _ => ex(format!("(← (match {} with | some v__ => pure v__ | none => throw \"unwrap of None\"))", x.s), Ty::W(128), true),
                             });
+                        }
+                    }
+                    self.pre.truncate(save);
+                }
+                if self.ext && (m == "is_empty" || m == "unwrap_or") {
+                    let save = self.pre.len();
+                    if let Ok(x) = self.expr(&mc.receiver, env) {
+                        if m == "is_empty" && mc.args.is_empty() && x.ty == Ty::Str { return Ok(ex(format!("{}.isEmpty", paren(&x.s)), Ty::Bool, x.m)); }
+                        if m == "unwrap_or" && mc.args.len() == 1 && x.ty == Ty::OptRMode {
+                            let d = self.expr(&mc.args[0], env)?;
+                            if d.ty != Ty::RMode { bail!("unwrap_or default of {:?}", d.ty) }
+                            return Ok(ex(format!("({}.getD {})", paren(&x.s), paren(&d.s)), Ty::RMode, x.m || d.m));
                         }
                     }
                     self.pre.truncate(save);
@@ -602,7 +632,7 @@ impl<'a> FnCtx<'a> {
             if *is_mut { backs.push(strip_ref(a).clone()); }
         }
         let t = self.fresh();
-        out.lines.push(format!("{}let {} ← {} {}", ind, t, fn_name(&f), args.join(" ")));
+        out.lines.push(format!("{}let {} ← {} {}", ind, t, self.callee_name(&f), args.join(" ")));
         // result layout: (ret, outs...) or outs only
         let mut comps: Vec<String> = Vec::new();
         let total = (if ret != Ty::Unit { 1 } else { 0 }) + backs.len();
@@ -1109,10 +1139,14 @@ fn main() {
     let read_wl = |p: &String| -> Vec<String> { std::fs::read_to_string(p).unwrap().lines().map(|l| l.split('#').next().unwrap().trim().to_string()).filter(|l| !l.is_empty()).collect() };
     let first: Vec<String> = read_wl(wl);
     // optional second whitelist: its routines go to a second module that imports the first (which stays byte-identical)
-    let second: Vec<String> = if args.len() >= 6 { read_wl(&args[4]) } else { vec![] };
+    let second_all: Vec<String> = if args.len() >= 6 { read_wl(&args[4]) } else { vec![] };
+    // `extern NAME` lines: NAME is not translated; the second module takes it as a section variable (a function parameter of
+    // every definition that calls it, directly or through another definition of the module)
+    let externs: Vec<String> = second_all.iter().filter_map(|l| l.strip_prefix("extern ").map(|x| x.trim().to_string())).collect();
+    let second: Vec<String> = second_all.iter().filter(|l| !l.starts_with("extern ")).cloned().collect();
     let ext_set: HashSet<String> = second.iter().cloned().collect();
     let mut whitelist: Vec<String> = first.clone(); whitelist.extend(second.iter().cloned());
-    let mut cx = Ctx { fns: HashMap::new(), sigs: HashMap::new(), consts: HashMap::new(), tables: HashMap::new(), used_consts: vec![], used_tables: HashSet::new(), errors: vec![], new_is_lh: false };
+    let mut cx = Ctx { fns: HashMap::new(), sigs: HashMap::new(), consts: HashMap::new(), tables: HashMap::new(), used_consts: vec![], used_tables: HashSet::new(), errors: vec![], new_is_lh: false, ext_needs: HashMap::new() };
     let mut files: Vec<_> = std::fs::read_dir(srcdir).unwrap().map(|e| e.unwrap().path()).filter(|p| p.extension().map(|e| e == "rs").unwrap_or(false)).collect();
     files.sort();
     let mut fn_src: HashMap<String, String> = HashMap::new();
@@ -1181,7 +1215,7 @@ fn main() {
         }
     }
     // signatures of the whitelisted functions
-    for w in &whitelist {
+    for w in whitelist.iter().chain(externs.iter()) {
         let f = match cx.fns.get(w) { Some(f) => f, None => { eprintln!("translate: whitelisted function {} not found", w); std::process::exit(2); } };
         let mut params = Vec::new();
         for a in f.sig.inputs.iter() {
@@ -1234,6 +1268,29 @@ fn main() {
         if ret != Ty::Unit { rtys.push(ret.lean()); }
         for (_, t, m) in sig.params.iter() { if *m { rtys.push(t.lean()); } }
         let rty = match rtys.len() { 0 => "Unit".to_string(), 1 => rtys[0].clone(), _ => format!("({})", rtys.join(" × ")) };
+        // untranslated functions this one reaches (directly, or through a callee that takes them): leading parameters
+        let mut needs: Vec<String> = Vec::new();
+        if ext_set.contains(name) && !externs.is_empty() {
+            let mut calls = Vec::new(); collect_calls(&f.block, &mut calls);
+            // method calls `x.m(..)` on d128 and `Self::m(..)` are not collected by path; the glue calls free functions only
+            for c in calls {
+                if externs.contains(&c) { if !needs.contains(&c) { needs.push(c.clone()); } }
+                if let Some(v) = cx.ext_needs.get(&c) { for e in v.clone() { if !needs.contains(&e) { needs.push(e); } } }
+            }
+            let mut ext_params = Vec::new();
+            for e in &needs {
+                let sg = &cx.sigs[e];
+                let mut rtys: Vec<String> = Vec::new();
+                if sg.ret != Ty::Unit { rtys.push(sg.ret.lean()); }
+                for (_, t, m) in sg.params.iter() { if *m { rtys.push(t.lean()); } }
+                let rty = match rtys.len() { 0 => "Unit".to_string(), 1 => rtys[0].clone(), _ => format!("({})", rtys.join(" × ")) };
+                let ptys: Vec<String> = sg.params.iter().map(|p| p.1.lean()).collect();
+                ext_params.push(format!("({} : {} → Except String {})", fn_name(e), ptys.join(" → "), rty));
+            }
+            ext_params.extend(header_params.drain(..));
+            header_params = ext_params;
+        }
+        cx.ext_needs.insert(name.clone(), needs);
         let mut fc = FnCtx { cx: &mut cx, name: name.clone(), outs, ret: ret.clone(), tmp: 0, pre: vec![], loops: vec![], ext: ext_set.contains(name) };
         let mut out = Out { lines: Vec::new() };
         let res = fc.stmts(&f.block.stmts, &mut env, "  ", &mut out, &Tail::Ret);
